@@ -11,16 +11,16 @@ def ite_summary(items, w=None):
         t = v if t is None else z3.If(c, v, t)
     return t
 
-def rtl_clock(ck, m, syms, label):
+def rtl_clock(ck, m, syms, label, junk=False):
     """settle, check the syscall request nets, then one rising clock; returns summaries of the successor"""
     pc, a, b, o, mem = syms
-    E = m.engine(); st, p = m.fresh(E, mem)
+    E = m.engine(); st, p = m.fresh(E, mem, junk=junk)
     m.put(E, st, 'pc_q', z3.ZeroExt(11, pc)); m.put(E, st, 'areg_q', a); m.put(E, st, 'breg_q', b); m.put(E, st, 'oreg_q', o)
     for n in ('i_clk', 'i_rst', '__Vtrigrprev__TOP__i_clk', '__Vtrigrprev__TOP__i_rst'): m.put(E, st, n, 0)
     base = len(st.pc)
     sts = run_all(E, 'm_init', [p], [st]); sts = run_all(E, 'm_eval', [p], sts)
     ins = fetch_byte(mem, z3.ZeroExt(11, pc))
-    for s in sts:
+    for s in ([] if junk else sts):
         v = m.get(E, s, 'o_syscall_valid'); sc = m.get(E, s, 'o_syscall')
         ok, mdl = ck.prove(E, s, z3.And((bv(v, 8) != 0) == (ins == 0xD3), z3.Implies(ins == 0xD3, z3.Extract(1, 0, bv(sc, 8)) == z3.Extract(1, 0, a))),
                            f"{label}: o_syscall_valid == (fetched instruction is SVC), o_syscall == areg[1:0]")
@@ -55,7 +55,7 @@ def isa_step(ck, sim, syms, assume):
     ck.engine(E, 'hexsim::Processor::run (one iteration) as ISA step (decided against hexb.pdf in C02)')
     return out, len(items)
 
-def compare(ck, m, sim, label):
+def compare(ck, m, sim, label, junk=False):
     pc = z3.BitVec('pc', 21); a, b, o = [z3.BitVec(n, 32) for n in ('areg', 'breg', 'oreg')]
     mem = z3.Array('mem', z3.BitVecSort(32), z3.BitVecSort(32))
     syms = (pc, a, b, o, mem); pc32 = z3.ZeroExt(11, pc)
@@ -63,7 +63,7 @@ def compare(ck, m, sim, label):
     # reachable-state invariant: the low nibble of oreg is clear at every instruction boundary (true after reset,
     # re-established by every instruction: oreg becomes 0 or x << 4); proved preserved below
     assume.append(o & 15 == 0)
-    R, nr = rtl_clock(ck, m, syms, label)
+    R, nr = rtl_clock(ck, m, syms, label, junk=junk)
     I, ni = isa_step(ck, sim, syms, assume)
     chk = Engine(m.M); s = State(); s.pc = list(assume)
     for nm, cov in (('RTL', R['cover']), ('ISA', I['cover'])):
@@ -86,6 +86,8 @@ def compare(ck, m, sim, label):
     }
     for what, c in claims.items():
         ok, mdl = ck.prove(chk, s, c, f"{label}: after one clock {what} equals the ISA successor")
+        if not ok and junk:
+            confirm_rtl_hidden(ck, label, what, [(k, model_int(mdl, v)) for k, v in m.junk if not k.startswith('__PVT__') or True][:12]); return
         if not ok:
             vals = {str(v): model_int(mdl, v) for v in (pc, a, b, o)}
             iv = model_int(mdl, ins)
@@ -96,14 +98,59 @@ def compare(ck, m, sim, label):
     ck.engine(chk)
     ck.sample({'model': label, 'rtl_paths_after_clock': nr, 'isa_paths': ni})
 
+def selfmod_image(lane):
+    """hand-encoded image: a STAM rewrites the word it sits in (at byte lane `lane` of that word); the rewritten word then loads 0 instead of 1
+    into the exit value. ISA result: exit status 0."""
+    def w(bs): return sum(b << (8*i) for i, b in enumerate(bs))
+    words = [0]*16
+    words[0] = w([0x97, 0, 0, 0])                 # BR 7 -> byte 8
+    words[1] = 1000                               # stack pointer
+    # word 2 (bytes 8..11): LDAM 6 ; fill to reach the chosen lane of word 3
+    seq = [0x06] + [0x40] * (3 + lane)            # LDAM 6 ; LDBC 0 ...
+    old = [0x23, 0x31, 0x41, 0x82]                # STAM 3 ; LDAC 1 ; LDBM 1 ; STAI 2
+    new = [0x23, 0x30, 0x41, 0x82]                # STAM 3 ; LDAC 0 ; LDBM 1 ; STAI 2
+    code = seq + old[: 4 - lane] if lane == 0 else None
+    if lane == 0:
+        bytes_ = seq + old + [0x30, 0xD3, 0, 0]
+        words[6] = w(new)
+    else:
+        # store in lane 1 behind a PFIX 0: word 3 = [PFIX 0, STAM 3, LDAC x, LDBM 1]; next word: STAI 2 ; LDAC 0 ; SVC
+        seq = [0x06, 0x40, 0x40, 0x40]
+        oldw = [0xE0, 0x23, 0x31, 0x41]; neww = [0xE0, 0x23, 0x30, 0x41]
+        bytes_ = seq + oldw + [0x82, 0x30, 0xD3, 0]
+        words[6] = w(neww)
+    for i in range(0, len(bytes_), 4): words[2 + i//4] = w(bytes_[i:i+4])
+    return struct.pack('<I', len(words)) + b''.join(struct.pack('<I', x) for x in words)
+
+def confirm_rtl_hidden(ck, label, what, junkvals):
+    """the clock depends on a design member outside pc/areg/breg/oreg/memory. Confirm on the hextb built from the working
+    tree with self-modifying images (a store into the word being executed)."""
+    import tempfile, shutil
+    d = tempfile.mkdtemp(dir=os.path.join(build.VERIF, 'build')); found = None
+    try:
+        hextb = build.tool_hextb(); hexsim = build.tool('hexsim')
+        for lane in (0, 1):
+            p = os.path.join(d, f'selfmod{lane}.bin'); open(p, 'wb').write(selfmod_image(lane))
+            r1 = subprocess.run([hexsim, p], capture_output=True, timeout=60); r2 = subprocess.run([hextb, p], cwd=d, capture_output=True, timeout=120)
+            if r1.returncode == 0 and r2.returncode != 0: found = {'image': f'store into its own word at byte lane {lane}', 'hexsim_exit': r1.returncode, 'hextb_exit': r2.returncode}; break
+    finally: shutil.rmtree(d, ignore_errors=True)
+    key = f"{label}:hidden-state"
+    msg = (f"{label}: the clocked design keeps state outside pc/areg/breg/oreg/memory that the next instruction depends on ({what} differs from the ISA successor "
+           f"for some value of {[k for k, v in junkvals][:6]})")
+    if found: msg += f"; native witness: {found}"
+    ck.violation(key, msg, ck.replay_file(key, {'members': junkvals, 'native': found}), found is not None)
+
 def main():
     ck = Check('C03', 'other')
     sim = Sim(noinline=True)
     compare(ck, HexModel(), sim, 'hex(processor.sv)')
+    if not ck.violations:
+        compare(ck, HexModel(), sim, 'hex(processor.sv), other design members arbitrary', junk=True)
     if ck.tier == 'thorough':
         compare(ck, HexModel(['verilog/hex_pkg.sv', 'verilog/hex.sv', 'verilog/processor.v', 'verilog/memory.sv'], tag='hex_v'), sim, 'hex(processor.v)')
     ck.assume("quantifier: pc < 800000, effective word addresses < 200000, defined opcodes (as C02); the successor pc and an LDAP result are byte addresses < 800000 (the range both implementations provide)",
               "inductive invariant: oreg & 15 == 0 at instruction boundaries (holds after reset, proved preserved by every clock); states violating it are unreachable and excluded",
+              "noninterference: the comparison is repeated with every other scalar member of the Verilated design (registers or nets the harness does not know) holding arbitrary values; nets are recomputed by the settle evaluation, so only added state can matter; a dependence is confirmed on the hextb built from the working tree with self-modifying images",
               "relation: registers equal (pc zero-extended), RTL memory_q[i] == ISA memory[i] for i < 200000",
               "the ISA side is hexsim's step, itself decided against the hexb.pdf reference in C02",
               "Verilator 5.006 two-state semantics with the CMake build's arguments (--top-module hex --prefix Vhex_pkg --trace); generated constructors replaced by explicit wiring of the object graph",
